@@ -21,6 +21,7 @@ ASSUMPTIONS = ["bounds as listed in evidence.coverage.bounds", "literal (sequenc
 def bounds(tier):
     q = tier == "quick"
     return {"partition": f"values 0..5, 1..{5 if q else 6} items, 1..5 bins; all partitioners, cg 4 switch sets x 3 objectives, dp x 3 objectives; ilp on values 0..3, 1..4 items, 1..3 bins",
+            "partition-wide": f"all multisets of 7 items over 1..{6 if q else 10}, k=3..5, ckk/snp/rnp/cg: full output vs Sums and Partition",
             "packing": f"all sequences of 1..{4 if q else 5} items over 0..6 (B=6), 5 packers; multisets of 1..{7 if q else 8} items over 1..10 (B=20 and B=10) for bc/ffd/bfd",
             "covering": f"multisets of 1..{5 if q else 6} items over 1..13 (B=10) and 1..9 (B=6)"}
 
@@ -32,6 +33,9 @@ def tasks(tier):
         ts.append(("partition", ch, (1, 2, 3, 4, 5)))
     for ch in scopes.chunk_multisets(range(0, 4), 1, 4, 6):
         ts.append(("partition-ilp", ch, (1, 2, 3)))
+    # inputs on which the searches really iterate (first answer sub-optimal, several improvements): contents-keeping path
+    for ch in scopes.chunk_multisets(range(1, 7 if q else 11), 7, 7, 60):
+        ts.append(("partition-wide", ch, (3, 4, 5)))
     for ch in spaces.chunked(spaces.sequences(range(0, 7), 1, 4 if q else 5), 300):
         ts.append(("packing-seq", ch, 6))
     for B in (20, 10):
@@ -61,7 +65,7 @@ def _same(a, b):
     return a == b
 
 
-def _ten(acc, base):
+def _ten(acc, base, outs=scopes.OUTS):
     algo = base["algo"]
     case = dict(base, out="PartitionAndSumsTuple")
     obs = repo.call(case)
@@ -81,7 +85,7 @@ def _ten(acc, base):
     if len(sums) != len(lists):
         acc.violation(algo, cfg_str(case), inp_str(case), "sums_lists_length", len(lists), len(sums), case)
     want = _derive(sums, lists)
-    for o in scopes.OUTS:
+    for o in outs:
         if o == "PartitionAndSumsTuple":
             continue
         c2 = dict(base, out=o)
@@ -115,7 +119,13 @@ def run_task(task):
     acc = Acc(ID, scope)
     for it in chunk:
         items = list(it)
-        if scope.startswith("partition"):
+        if scope == "partition-wide":
+            for k in size:
+                for algo in ("ckk", "snp", "rnp", "cg"):
+                    kw = {"objective": "MinimizeDifference"} if algo == "cg" else {}
+                    nt = _ten(acc, {"algo": algo, "items": items, "k": k, "kw": kw}, outs=("Sums", "Partition"))
+                    acc.point(nontrivial=nt)
+        elif scope.startswith("partition"):
             for k in size:
                 for algo, kw in _part_cfgs(len(items), k, scope):
                     nt = _ten(acc, {"algo": algo, "items": items, "k": k, "kw": kw})
@@ -138,4 +148,4 @@ def run_task(task):
 
 def replay(case, acc):
     base = {k: v for k, v in case.items() if k != "out"}
-    _ten(acc, base)
+    _ten(acc, base)   # all ten output types, whichever scope found it
